@@ -21,6 +21,18 @@ def extract(read):
     bs = sorted(set(re.findall(r"const\s+BATCH_SIZE\s*:\s*usize\s*=\s*(\d+)", simd)))
     out.append("/-- simd_aggregate.rs: the BATCH_SIZE constants of the streaming kernels (all of them) -/")
     out.append("def c03SimdBatchSizes : List Nat := [%s]" % ", ".join(bs))
+    # initial values of the running minimum / maximum of every simd_* kernel:
+    # (file:function, element type, "min"|"max", initialiser text as written)
+    inits = []
+    for rel in ["crates/vibesql-executor/src/simd/aggregation.rs", "crates/vibesql-executor/src/select/columnar/simd_aggregate.rs"]:
+        src = read(rel)
+        for m2 in re.finditer(r"pub fn (simd_\w+_(f64|i64))\b(.*?)(?=\npub fn |\n#\[cfg\(|\Z)", src, re.S):
+            fn, ty, body = m2.group(1), m2.group(2), m2.group(3)
+            for kind, init in re.findall(r"let mut (min|max)\s*(?::\s*\w+\s*)?=\s*([^;]+);", body):
+                inits.append((rel.split("/")[-1] + ":" + fn, ty, kind, init.strip()))
+    out.append("/-- initial value of the running min / max of every simd_* kernel, as written in the source -/")
+    out.append("def c03KernelInits : List (String × String × String × String) := [%s]"
+               % ", ".join('("%s", "%s", "%s", "%s")' % t for t in inits))
     out.append("/-- columnar_execution.rs `should_use_columnar`: statement parts whose presence makes the gate return false -/")
     out.append("def c03GateRejects : List String := [%s]" % ", ".join('"%s"' % r for r in rejected))
     return "\n".join(out) + "\n"
